@@ -460,9 +460,9 @@ def moveUpperFace (atol : K) (box : Box K) (motion : Nat) (atoms : List (Atom K)
 /-- indices (in order) of the atoms of the test system within `sburgers` of either face across the motion
     direction. -/
 def boundaryIds (o : Orient) (newbox : Box K) (sb : K) (testpos : List (V3 K)) : List Nat :=
-  (testpos.zipIdx).filterMap fun (p, i) =>
-    let s := (newbox.cartToRel p).get o.motion
-    if s < sb ∨ 1 - sb < s then some i else none
+  (List.range testpos.length).filter fun i =>
+    let s := (newbox.cartToRel (testpos.getD i ⟨0, 0, 0⟩)).get o.motion
+    decide (s < sb) || decide (1 - sb < s)
 
 /-- the duplicate loop: boundary atom `i` (all but the last) is a duplicate when its smallest periodic
     distance to a *later* boundary atom is below `cutoff`. -/
